@@ -20,7 +20,7 @@ def expected_trace(starting_epoch, epochs, nb):
     return t
 
 
-def extract(run, n_wit):
+def extract(run, n_wit, upto=None, frm=0):
     """Split the log into canonical items.
 
     Returns (items, ok) where items is a list of
@@ -32,7 +32,7 @@ def extract(run, n_wit):
     items = []
     pending = None  # [kind, args, next_idx]
     ok = True
-    for ent in run.log.entries:
+    for ent in (run.log.entries[frm:] if upto is None else run.log.entries[frm:upto]):
         if ent[0] == "ev":
             _, kind, args, idx, dg = ent
             if idx == 0:
